@@ -74,32 +74,57 @@ def main():
             violations.append(("translator", replay_file("translator", out), False,
                                "table translator failed on the current source: " + gen))
 
+    for pre in cfg.get("pre_cmds", []):
+        rcp, outp = sh(pre, timeout=1800)
+        if rcp != 0:
+            print(outp[-3000:])
+            violations.append(("pre", replay_file("pre", outp), False, "preparation step failed: " + pre))
+
     # ---- 2. Coq ----------------------------------------------------------------------------
     rc, out = sh("./build.sh all", timeout=3400)
     build_ok = rc == 0
+    if rc == 5:
+        violations.append(("translator", replay_file("translator", out), False, "a table translator failed on the current source"))
     if rc == 4:
         print(out)
         print("the Go harness does not build against /repo's current tree")
     obligations, discharged, assumptions_text, theorem_names = 0, 0, "", []
-    props_file = os.path.join("coq", "props", pid + ".v")
-    src = open(props_file).read() if os.path.exists(props_file) else ""
+    props_files = sorted(glob.glob(os.path.join("coq", "props", pid + ".v")) + glob.glob(os.path.join("coq", "props", pid + "_*.v")))
+    src = "\n".join(open(f).read() for f in props_files)
     theorem_names = re.findall(r"^\s*(?:Theorem|Corollary)\s+(\w+)", src, flags=re.M)
     obligations = len(theorem_names)
     hygiene = coq_hygiene()
     if build_ok and src:
-        rc2, out2 = sh("cd coq && timeout 1500 coqc -Q . RV props/%s.v" % pid, timeout=1600)
-        assumptions_text = out2
-        if rc2 == 0:
-            discharged = len(re.findall(r"Closed under the global context|^Axioms:", out2, flags=re.M))
-            discharged = min(discharged, obligations) if discharged else 0
-        else:
-            build_ok = False
-            out = out2
+        for pf in props_files:
+            rc2, out2 = sh("cd coq && timeout 1500 coqc -Q . RV %s" % os.path.relpath(pf, "coq"), timeout=1600)
+            assumptions_text += out2 + "\n"
+            if rc2 == 0:
+                discharged += len(re.findall(r"Closed under the global context|^Axioms:", out2, flags=re.M))
+            else:
+                build_ok = False
+                out = out2
+                break
+        discharged = min(discharged, obligations)
     if not build_ok and rc != 4:
         # which theorem broke: the first Error location
         m = re.search(r'File "([^"]+)", line (\d+)', out)
         where = ("%s line %s" % (m.group(1), m.group(2))) if m else "coq build"
-        violations.append(("proof", replay_file("proof", "The Coq development no longer checks (%s).\n\n%s" % (where, out[-6000:])), False,
+        extra = ""
+        if cfg.get("lockset_query"):
+            qf = os.path.join(work, "lockset_query.v")
+            open(qf, "w").write("From RV Require Import model.Base model.Lockset gen.Lockset_gen gen.Known_gen.\n"
+                                "Eval vm_compute in filter (fun k => negb (mem_str k known_race_keys)) (map race_key (race_pairs table)).\n"
+                                "Eval vm_compute in acyclic lock_edges.\n")
+            sh("cd coq && coqc -Q . RV model/Lockset.v && coqc -Q . RV gen/Lockset_gen.v && coqc -Q . RV gen/Known_gen.v", timeout=600)
+            rq, oq = sh("coqc -Q coq RV %s" % qf, timeout=600)
+            extra = "\n\nRacy pairs of the regenerated access table that are not known findings, and acyclicity of the lock order:\n" + oq
+            newkeys = re.findall(r'"(race:[^"]+)"', oq)
+            for nk in newkeys:
+                violations.append((nk, replay_file("lockset_" + nk, "Unprotected conflicting accesses in the current source (table regenerated by tools/genlockset):\n" + nk + extra), True,
+                                   "lock discipline broken: " + nk))
+            if "= false" in oq:
+                violations.append(("lock-order-cycle", replay_file("lockorder", "The lock acquisition order extracted from the current source has a cycle." + extra), True, "lock order is cyclic"))
+        violations.append(("proof", replay_file("proof", "The Coq development no longer checks (%s).\n\n%s%s" % (where, out[-6000:], extra)), False,
                            "proof obligation no longer checks: " + where))
     if hygiene:
         violations.append(("hygiene", replay_file("hygiene", hygiene), False, "forbidden declaration in the development"))
@@ -119,8 +144,8 @@ def main():
             per = max(1, n // shards)
             for i in range(shards):
                 name = "%s_%s_%d" % (s["suite"], s.get("mode", "x"), i)
-                cmd = "./bin/rvharness %s -seed %d -n %d -out %s -name %s %s" % (
-                    s["suite"], seed * 1000 + i * 7 + s.get("seed_off", 0), per, work, name, s.get("args", ""))
+                cmd = "%s %s -seed %d -n %d -out %s -name %s %s" % (
+                    s.get("bin", "./bin/rvharness"), s["suite"], seed * 1000 + i * 7 + s.get("seed_off", 0), per, work, name, s.get("args", ""))
                 jobs.append((s, name, cmd))
         # corpus: minimised failing cases found earlier, run first
         corpus = sorted(glob.glob(os.path.join(ROOT, "corpus", pid, "*.cases")))
@@ -128,6 +153,9 @@ def main():
         def run_job(job):
             s, name, cmd = job
             rc, out = sh("timeout %d %s" % (s.get("timeout", 1500), cmd), timeout=s.get("timeout", 1500) + 60)
+            if s.get("race") and rc in (0, 66):
+                # the Go race detector reports on stderr and makes the process exit with 66
+                return (s, name, 0, out, "")
             if rc != 0:
                 return (s, name, rc, out, "")
             ev = s.get("eval", "./bin/modelrun {cases}").format(cases="%s/%s.cases" % (work, name), work=work)
@@ -141,6 +169,17 @@ def main():
             results.append(({"suite": "corpus", "corpus": True}, os.path.basename(c), rc2, "", out2))
         for (s, name, rcj, hout, mout) in results:
             suites_run.append(name)
+            if s.get("race"):
+                for blk in re.findall(r"WARNING: DATA RACE\n(.*?)\n==================", hout, flags=re.S):
+                    fns = re.findall(r"^  (github\.com/my-cloud/ruthenium/[^\s(]+(?:\(\*?\w+\))?[.\w]*)\(", blk, flags=re.M)
+                    tops = []
+                    for part in re.split(r"\n\n", blk)[:2]:
+                        m = re.search(r"^  (github\.com/my-cloud/ruthenium/\S+?)\(\)?", part, flags=re.M)
+                        if m:
+                            tops.append(m.group(1).split("/")[-1])
+                    key = "dynrace:" + "|".join(sorted(set(tops))) if tops else "dynrace:unknown"
+                    violations.append((key, replay_file("race_%s_%d" % (name, len(violations)), "go test -race style report from suite %s:\n\nWARNING: DATA RACE\n%s\n" % (name, blk)), True,
+                                       "the race detector reports a data race between %s" % " and ".join(sorted(set(tops)) or ["?"])))
             if rcj != 0:
                 # a crash of the harness is itself a finding candidate (e.g. the node panicked)
                 key = "harness-crash"
